@@ -296,9 +296,16 @@ def check_sites(chk, cid, prog, f, cfgname):
                             'post-check after an append must be `%s >= %s` (when the counter reaches the capacity the next append would overflow); found `%s`'
                             % (lhs.a['name'], rhs.a['name'], pretty(c)), cfgname=cfgname)
         else:
-            okop = op == '>'
+            # arrays that are also filled by store-then-test appends (`a[next++] = x; if (next >= cap) expand`) need next < cap before every such
+            # append: a block pre-check on them has to be `needed >= cap`, `>` may leave next == cap (heap overrun by one, repaired in b9e9d82)
+            strict = T in POSTCHECKED.get(id(prog), set())
+            okop = op == '>=' if strict else op in ('>', '>=')
             if not okop:
-                chk.violate(cid, inst + ':pre-check-operator', loc(f, node), f.name, 'pre-check must be `needed > %s`; found `%s`' % (rhs.a['name'], pretty(c)), cfgname=cfgname)
+                chk.violate(cid, inst + ':pre-check-operator', loc(f, node), f.name,
+                            ('%s is also appended to with store-then-test (`if (next >= cap)`), which needs next < cap before each store: the block pre-check must be '
+                             '`needed >= %s`, otherwise it can leave next == cap and the next append writes one element past the array; found `%s`'
+                             % (FIELD_OF[T], rhs.a['name'], pretty(c))) if strict else
+                            'pre-check must be `needed > %s` (or >=); found `%s`' % (rhs.a['name'], pretty(c)), cfgname=cfgname)
             elif kind != 'while':
                 chk.violate(cid, inst + ':pre-check-not-repeated', loc(f, node), f.name,
                             'a pre-check for several elements (`%s`) must be a loop: ?expand may grant less than the request when space is short, so the test has '
@@ -450,8 +457,32 @@ def check_increment_advance(chk, cid, prog, f, cfgname):
     return cnt
 
 
+POSTCHECKED = {}
+
+
+def _postchecked_types(prog):
+    """memory types that have at least one store-then-test expansion site somewhere in the library"""
+    out = set()
+    for f in prog.all_funcs():
+        if f.unit.startswith(('CBLAS/', 'FORTRAN/')):
+            continue
+        for x in f.body.walk():
+            if x.k == 'If':
+                c = strip(x.c[0])
+                if c.k == 'Binary' and c.a['op'] == '>=' and strip(c.c[0]).k == 'Ref' and strip(c.c[1]).k == 'Ref':
+                    for y in x.c[1].walk():
+                        if y.k == 'Call' and is_xpand(callee_name(y)) and len(y.c) > 3:
+                            nxt = strip(y.c[2])
+                            if nxt.k == 'Ref' and nxt.a.get('id') == strip(c.c[0]).a.get('id'):
+                                t = xpand_type(y, prog.enums)
+                                if t:
+                                    out.add(t)
+    return out
+
+
 def run(chk, cid_prefix, prog, cfgname, units=None):
     mx = MayExpand(prog)
+    POSTCHECKED[id(prog)] = _postchecked_types(prog)
     ca = chk.clause(cid_prefix + '.a', 'capacity test guards every expansion; failure propagates')
     cb = chk.clause(cid_prefix + '.b', 'aliases re-read after a possible expansion')
     ns = nc = 0
